@@ -29,14 +29,36 @@ def iso(ts):
     return ts.isoformat()
 
 
+class LibraryRaised(Exception):
+    """the library raised out of ctparse()/ctparse_gen(); the runner turns this into a violation of the running
+    property (value checks: the asserted result was not delivered) or into a counted skip (checks whose statement
+    is only about values that *are* produced) - see ON_LIBRARY_RAISE in the check modules"""
+
+    def __init__(self, api, args, exc):
+        import traceback
+
+        tb = traceback.extract_tb(exc.__traceback__)
+        self.where = next((f.name for f in reversed(tb) if "/ctparse/" in f.filename), "?")
+        self.api = api
+        self.call = args
+        self.exc = exc
+        Exception.__init__(self, "{}{} raised {!r} in {}".format(api, args, exc, self.where))
+
+
 def parse(text, ts, **kw):
     kw.setdefault("timeout", 0)
-    return lib()[0](text, ts=ts_of(ts), **kw)
+    try:
+        return lib()[0](text, ts=ts_of(ts), **kw)
+    except Exception as e:
+        raise LibraryRaised("ctparse", (text, str(ts), {k: v for k, v in kw.items() if k != "scorer"}), e)
 
 
 def stream(text, ts, **kw):
     kw.setdefault("timeout", 0)
-    return list(lib()[1](text, ts=ts_of(ts), **kw))
+    try:
+        return list(lib()[1](text, ts=ts_of(ts), **kw))
+    except Exception as e:
+        raise LibraryRaised("ctparse_gen", (text, str(ts), {k: v for k, v in kw.items() if k != "scorer"}), e)
 
 
 def res_obs(r):
